@@ -512,7 +512,8 @@ def scaled_dot_product_attention(
     is_causal: bool = False,
     mult: float = 1.0,
 ) -> Tensor:
-    *_, seq_len, d_head = value.shape
+    seq_len = value.shape[-2]
+    d_head = query.shape[-1]  # the dot-product (query/key) size, not the value size
     # Empirical model of attention output std given mult and seq_len
     scale = (1 - dropout_p) ** 0.5 / logarithmic_interpolation(
         alpha=1 / (1 + 4 * d_head / mult**2),  # = sigmoid(log(mult**2 / (4 * d_head)))
